@@ -73,6 +73,8 @@ extern int os_unmapped_ok;          /* munmap called exactly with the mapping */
 extern unsigned char os_written[64]; /* what reached the "file" through fwrite */
 extern unsigned os_written_n;
 extern int os_fopen_live, os_fclose_ok;
+extern unsigned os_anon_len;       /* true size of the managed code mapping */
+unsigned char *os_code_base(void);  /* its current address (symbolic build) */
 
 void os_schedule(int in_base);      /* binds the schedule from IN(in_base..) */
 #define OS_SCHEDULE_INPUTS (OS_NKIND + 2)
